@@ -130,6 +130,15 @@ P = {
          "REQ_END with the status the client received, one Error record with the panic value iff the handler panicked, 500 iff no status "
          "was written before the panic; ids unique",
          "status set at most once and before the body (property's quantifier); http.ErrAbortHandler itself excluded", "5/C15"),
+ "C20": ("spec/daemon/Daemon.tla, spec/daemon/DaemonCases.tla",
+         "TLA+ model of the caller / launcher / daemon handshake with signal delivery (queued if a handler is installed, deadly if not) "
+         "and the order of Notify vs. Start as a constant; TLC checks ReturnsOnlyAfterDone, NeverFailsForRunningDaemon, OrphanedOnReturn and "
+         "EventuallyReturns, and rejects the pinned order; event files of real three-process runs (O_APPEND total order; launcher paused via "
+         "the verif pause point) are judged by TLC",
+         "all interleavings of the protocol model; on real processes: 8 schedules (daemon immediate/delayed x launcher paused/unpaused x "
+         "1/3 concurrent launches with distinct handler names): Launch must return nil and the pid of the process running that handler, "
+         "after its Done(), with the daemon alive, not a child of the caller, launcher gone",
+         "schedule control only through the documented pause point; a Launch not returning within 8 s of start counts as not returning", "5/C20"),
 }
 
 NOT_BUILT_REASON = "check not built yet in this session (see DESIGN.md section 5 for the planned TLA+ spec and binding)"
